@@ -173,6 +173,34 @@ def dump_stats(ctx, dump):
     return unc, surplus, unc_all
 
 
+ARITY1 = {"a", "s", "c", "d", "v", "j", "n"}
+ARITY2 = {"and_v", "and_b", "or_b", "or_d", "or_c", "or_i"}
+
+
+def dump_height(dump):
+    """ExtData::tree_height of a prefix dump (iterative: the dumps of interest are 400 deep)"""
+    toks = dump.split(" ")
+    # parse into a post-order list of (arity) then fold heights with a stack
+    out, i = [], 0
+    while i < len(toks):
+        t = toks[i]
+        if t in ARITY1: out.append(1); i += 1
+        elif t in ARITY2: out.append(2); i += 1
+        elif t == "andor": out.append(3); i += 1
+        elif t == "thresh": out.append(int(toks[i + 2])); i += 3
+        elif t in ("multi", "sortedmulti", "multi_a", "sortedmulti_a"): out.append(0); i += 3 + int(toks[i + 2])
+        elif t in ("0", "1"): out.append(0); i += 1
+        else: out.append(0); i += 2
+    stack = []
+    for ar in reversed(out):
+        if ar == 0:
+            stack.append(0)
+        else:
+            kids = [stack.pop() for _ in range(ar)]
+            stack.append(1 + max(kids))
+    return stack[-1] if stack else 0
+
+
 # ------------------------------------------------------------------ the oracle
 def replay_obj(c, **kw):
     o = {"property": "C04", "engine": "codec", "ctx": c["ctx"], "hex": c["hex"], "kind": c["kind"], "case": c["id"]}
@@ -244,7 +272,10 @@ def judge(c):
         for tag, name in checks:
             d = c["D"].get(tag)
             if d is None or d[0] != "ok":
-                out.append(("roundtrip-reject:%s" % (d[1] if d else "missing"),
+                cls = d[1] if d else "missing"
+                if cls == "MaxRecursiveDepthExceeded" and dump_height(c["src"]) == 402:
+                    cls = "depth-402-reassociation"
+                out.append(("roundtrip-reject:%s" % cls,
                             "%s: %s rejects encode(`%s`) with %s" % (c["ctx"], name, c["src"][:300], d[1] if d else "?"),
                             replay_obj(c, mode=tag, failed_clause="decode(encode(m)) fails", error=d[1] if d else None)))
             else:
@@ -491,10 +522,12 @@ def run(rep, tier, seed, replay):
     # ---- oracle on the implementation's own outputs
     by_id = {}
     nviol = collections.Counter()
+    known_keys = {k["key"] for k in rep.known}
     for c in cases:
         v = judge(c)
-        if v:
-            by_id[c["id"]] = v
+        fresh = [x for x in v if x[0] not in known_keys]
+        if fresh:
+            by_id[c["id"]] = fresh
         for key, what, robj in v:
             nviol[key] += 1
             rep.violation(key, what, robj, True)
@@ -529,7 +562,7 @@ def run(rep, tier, seed, replay):
         coq_ok = False
         pd = vlib.coqc("Tables/CodecCasesDiag.v")
         coq_note = (pd.stdout or pd.stderr or p.stderr)[-3000:]
-        ids = [int(x) for x in re.findall(r"\((\d+), \[", flat)][:5]
+        ids = [int(x) for x in re.findall(r"\((\d+)%N, \[", flat)][:5]
         bad = [sample[i] for i in ids if i < len(sample)]
         found = next((by_id[c["id"]] for c in bad if c["id"] in by_id), None)
         if found:
